@@ -413,6 +413,12 @@ func casesOf(s *Seed, seedResp Resp, thorough bool) ([]mcase, error) {
 			add(mcase{Loc: "query:" + k, Repl: m.Name, Req: base.withoutQuery(k).withQuery(k, m.Val)})
 		}
 		add(mcase{Loc: "query:" + k, Repl: "long-string", Req: base.withoutQuery(k).withQuery(k, long300)})
+		if k == "expand" {
+			// the documented values (valid where the route and the ledger can serve them: in doubt)
+			for _, v := range []string{"volumes", "effectiveVolumes"} {
+				add(mcase{Loc: "query:" + k, Repl: v, Req: base.withoutQuery(k).withQuery(k, v)})
+			}
+		}
 		if isDate[k] {
 			for _, d := range badDates {
 				add(mcase{Loc: "query:" + k, Repl: "date-" + d.Name, Must: d.Name != "empty", Req: base.withoutQuery(k).withQuery(k, d.Val)})
@@ -638,7 +644,16 @@ func planC38(thorough bool) (*c38plan, error) {
 	bootDump := e0.Dump()
 	cacheLive := scriptCacheLive(e0)
 	e0.Close()
+	// the configuration dimension first: few, simple cases (a valid request, another ledger)
 	var cases []mcase
+	for i := range c.seeds {
+		s := &c.seeds[i]
+		fc := featureCases(s)
+		for k := range fc {
+			fc[k].Then = followUps(&fc[k], s.Req.Body)
+		}
+		cases = append(cases, fc...)
+	}
 	for i := range c.seeds {
 		s := &c.seeds[i]
 		e := NewEnv(c.boot.Clone())
@@ -760,7 +775,8 @@ func coarseKind(loc string) string {
 // c38sig builds the structural signature, at ROOT-CAUSE level:
 //   - panic / process-crash: the call site (file:function of the first repository frame).
 //     One unchecked dereference is one defect whatever route, field or replacement reaches it.
-//   - 5xx: input class + class of the logged error (head and root of the chain, SQLSTATE).
+//   - 5xx: input class + class of the logged error (head and root of the chain, SQLSTATE);
+//     for the configuration dimension (ledger-features): + the route.
 //   - no-response, state-changed-on-4xx: there is no server-side cause to key on: the route
 //     (+ input class). The error code of the 4xx says why the request was refused, not why
 //     its effect was kept: it is not part of the signature.
@@ -770,6 +786,12 @@ func c38sig(c *mcase, outcome, cause string) string {
 	case "panic", "process-crash":
 		return fmt.Sprintf("C38:%s:%s", outcome, cause)
 	case "5xx":
+		if coarseKind(c.Loc) == featureKind {
+			// the configuration dimension sends VALID requests to differently configured ledgers:
+			// what turns the refusal of the storage layer into a 5xx is the error mapping of the
+			// handler that served it, one root cause per route
+			return fmt.Sprintf("C38:5xx:%s:%s:%s:%s", featureKind, c.Seed.API, c.Seed.Route, cause)
+		}
 		return fmt.Sprintf("C38:5xx:%s:%s", coarseKind(c.Loc), cause)
 	case "no-response":
 		return fmt.Sprintf("C38:no-response:%s:%s:%s", c.Seed.API, c.Seed.Route, coarseKind(c.Loc))
@@ -942,6 +964,12 @@ func execOn(boot *pgsim.DB, e *Env, c *mcase, dumps *dumpChain) caseResult {
 			if kind == "filter-grid" {
 				res.Counts["loc:"+c.Loc[len("filter-grid:"):]]++
 				res.Counts["route:"+c.Seed.id()+":"+cls]++
+			}
+			if kind == featureKind {
+				res.Counts["features:"+c.Loc[len(featureKind)+1:]+":"+cls]++
+				if strings.HasPrefix(c.Repl, "expand=") && c.Repl != "expand=none" && rejected {
+					res.Counts["features_expansion_refused_4xx"]++
+				}
 			}
 			if kind == "body-rechained" && accepted {
 				res.Counts["rechained_accepted"]++
@@ -1245,10 +1273,21 @@ func runC38(r *ev.Run) (ev.Coverage, []string) {
 			r.EngineError(fmt.Sprintf("vacuous: rejected=%d accepted=%d must-rejected=%d sanity-ok=%d", counts["rejected"], counts["accepted"], counts["must_rejected"], counts["sanity_ok"]))
 		}
 		// every input class must have been exercised AND have met the validation it targets
-		for _, k := range []string{"body", "query", "query-filter", "filter", "cursor", "cursor-json", "header", "path"} {
+		for _, k := range []string{"body", "query", "query-filter", "filter", "cursor", "cursor-json", "header", "path", featureKind} {
 			if counts["kind:"+k] == 0 || counts["rejected:"+k] == 0 {
 				r.EngineError(fmt.Sprintf("vacuous: input class %s: %d cases, %d rejected with 4xx", k, counts["kind:"+k], counts["rejected:"+k]))
 			}
+		}
+		// the configuration dimension: every feature ledger served some request (2xx: its history
+		// is in place and its routes work), and some expansion was refused with a 4xx by a
+		// ledger that cannot serve it (the feature gates were reached)
+		for _, l := range c38FeatureLedgers {
+			if name := featureLoc(l)[len(featureKind)+1:]; counts["features:"+name+":2xx"] == 0 {
+				r.EngineError("vacuous: no request was served (2xx) by the ledger created with " + name)
+			}
+		}
+		if counts["features_expansion_refused_4xx"] == 0 {
+			r.EngineError("vacuous: no feature ledger refused an expansion with a 4xx")
 		}
 		// every seed (route variant) must have produced cases that were answered
 		for i := range p.ctx.seeds {
@@ -1373,6 +1412,9 @@ func runC38(r *ev.Run) (ev.Coverage, []string) {
 		"filter_grid_tier":                                      map[bool]string{true: "full product on every route variant", false: "reduced value sets (see rule); full product at the thorough tier"}[r.Thorough()],
 		"import_streams_with_repaired_hash_chain":               map[string]int64{"served": counts["kind:body-rechained"], "imported_2xx": counts["rechained_accepted"], "refused_4xx": counts["rejected:body-rechained"]},
 		"import_cross_document_streams":                         map[string]int64{"served": counts["kind:import-cross"], "refused_4xx": counts["rejected:import-cross"]},
+		"ledger_feature_cases":                                  counts["kind:"+featureKind],
+		"ledger_feature_outcomes_per_feature_set":               featureCounts(counts),
+		"ledger_feature_expansions_refused_4xx":                 counts["features_expansion_refused_4xx"],
 		"cursor_empty_page_cases":                               counts["kind:cursor-empty"],
 		"cursor_empty_pages_answered_2xx":                       counts["empty_page_2xx"],
 		"streamed_bulk_cases":                                   map[string]int64{"text-stream": counts["kind:text-stream"], "json-stream": counts["kind:json-stream"]},
@@ -1387,14 +1429,17 @@ func runC38(r *ev.Run) (ev.Coverage, []string) {
 		"numscript_cache_live":                                  p.scriptCacheLive,
 		"samples":                                               samples.List(),
 		"stream_documents_mutated":                              map[bool]string{true: "all", false: "first of each log type"}[r.Thorough()],
-		"rule":                                                  "one valid seed request per v1/v2 route (exporters/pipelines and bucket deletion excluded) on a clone of a booted+seeded pgsim database; mutations one at a time: every JSON pointer of the body (and of the query-string filter, and of the decoded cursor) x {null,true,0,-1,1.5,1e400,\"\",\"x\",[],{},2^70,300-char string} + delete; bad dates on date-valued fields/params; every query parameter of the seed, and the parameters the handler reads although the seed omits them (after, page_size, schemaVersion, expand, pit), x {-1,0,abc,1e9,empty,300 chars}; cursors x {garbage, base64 of invalid JSON/non-object/text, truncated}; malformed filters; named invalid addresses/assets/variable values; empty/truncated/non-JSON body; Content-Type; Idempotency-Key reused with a different input; path id/address. Named non-compiling scripts (unclosed, unknown statement, garbage, undeclared variable, account as amount) at every script.plain, under the machine and the interpreter runtime. HISTORY DIMENSION: one case = one simulated server process (one Go object graph over one database clone, system controller wired as `serve` does, compiled-script cache of 1024 entries on) that serves the mutated request, then the byte-identical request AGAIN, then — for the routes that carry a transaction — the same body through the other API version (v1<->v2, dryRun<->preview) and as the single element of an atomic v2 _bulk (or, for a _bulk, the element the mutation touched through POST /v2/{ledger}/transactions); each of these requests is judged by the same oracle against the database as it stood before it (the repeat keeps the definitely-invalid mark, the re-routed requests are in doubt), and when the first send left the database unchanged the repeat must get the same status class (same input, same state, same process). FILTER GRID (c38grid.go): on every v2 route that takes a filter (accounts GET/HEAD, transactions GET/HEAD, logs, volumes, aggregate/balances, ledgers list, schemas list; with and without a point in time) the product {$match,$lt,$lte,$gt,$gte,$like,$exists,$in} x {every field and alias of the resource's compiled Schema(), its forms key[x] key[ key[] key], the fields of the other resources, unknown keys, [x], empty key} x 16 values {string, address, partial address, date, 5, 2^64+1, -1, true, [\"a\"], [], 1.5, null, [1], [null], {}, {\"a\":1}}, plus each leaf on an own key wrapped once in $not/$and/$or; quick tier: full product on the own keys of the base variant of each route, 2 values on foreign/unknown keys, 3 values on the HEAD/point-in-time variants; served in batches of 64 by one process, each request judged on its own (a key that names no field of the resource is definitely invalid). STREAMED BULKS (c38stream.go): a valid multi-element seed for each of application/vnd.formance.ledger.api.v2.bulk+script-stream and +json-stream, atomic and not; text stream: 21 header variants at every element position with and without a script, empty/blank script, missing //end, stray //end, text instead of an element, NUL, 64 KiB lines, CRLF/CR, BOM, blank lines, 120 elements; JSON stream: the JSON-pointer menu on the documents, framing damage (concatenated, comma-separated, array-wrapped, CRLF, BOM, NUL), truncated/split/duplicated documents, non-object documents, unknown/missing actions and payloads; spellings of the content type; all in doubt (a streamed bulk reports a stream it cannot decode inside a 200). CURSORS ON EMPTY PAGES: the decoded next cursor of every paginated seed with pageSize in {0,1,2^31,2^63-1,2^63,2^64-1,2^64,-1} x a position or filter that leaves nothing to return (offset beyond the end, pagination id/bottom beyond the data, reverse, filters.qb selecting nothing) x order as is/flipped, without the pageSize parameter (which would override the cursor's). IMPORT WITH THE HASH CHAIN REPAIRED (c38import.go): every body mutation of the import seed that leaves the documents decodable is ALSO sent with its hashes recomputed in stream order (Log.ComputeHash), so that it gets past the hash comparison; cross-document streams, well hashed: a later document takes a value of an earlier one of its type (every leaf: reference, transaction id, log id, ...), the same new reference / idempotency key / transaction id / log id in two documents, documents swapped, twice, missing, the whole stream twice. Oracle: no 5xx/panic/process crash, well-formed body for the status, 4xx leaves the dump unchanged (except non-atomic bulk, whose elements are independent by contract), definitely-invalid input (explicit table) is 4xx; in-doubt mutations may be 2xx or 4xx. Signatures are at root-cause level: panic/process-crash = call site; 5xx = input class + logged error class; state-changed-on-4xx = route; accepted/malformed = route + pointer class + replacement class (+ the follow-up kind when the request judged is a follow-up); verdict-changed-on-repeat = route + pointer class + replacement class + the two status classes",
+		"rule":                                                  "one valid seed request per v1/v2 route (exporters/pipelines and bucket deletion excluded) on a clone of a booted+seeded pgsim database; mutations one at a time: every JSON pointer of the body (and of the query-string filter, and of the decoded cursor) x {null,true,0,-1,1.5,1e400,\"\",\"x\",[],{},2^70,300-char string} + delete; bad dates on date-valued fields/params; every query parameter of the seed, and the parameters the handler reads although the seed omits them (after, page_size, schemaVersion, expand, pit), x {-1,0,abc,1e9,empty,300 chars} (expand: also volumes and effectiveVolumes); cursors x {garbage, base64 of invalid JSON/non-object/text, truncated}; malformed filters; named invalid addresses/assets/variable values; empty/truncated/non-JSON body; Content-Type; Idempotency-Key reused with a different input; path id/address. Named non-compiling scripts (unclosed, unknown statement, garbage, undeclared variable, account as amount) at every script.plain, under the machine and the interpreter runtime. HISTORY DIMENSION: one case = one simulated server process (one Go object graph over one database clone, system controller wired as `serve` does, compiled-script cache of 1024 entries on) that serves the mutated request, then the byte-identical request AGAIN, then — for the routes that carry a transaction — the same body through the other API version (v1<->v2, dryRun<->preview) and as the single element of an atomic v2 _bulk (or, for a _bulk, the element the mutation touched through POST /v2/{ledger}/transactions); each of these requests is judged by the same oracle against the database as it stood before it (the repeat keeps the definitely-invalid mark, the re-routed requests are in doubt), and when the first send left the database unchanged the repeat must get the same status class (same input, same state, same process). FILTER GRID (c38grid.go): on every v2 route that takes a filter (accounts GET/HEAD, transactions GET/HEAD, logs, volumes, aggregate/balances, ledgers list, schemas list; with and without a point in time) the product {$match,$lt,$lte,$gt,$gte,$like,$exists,$in} x {every field and alias of the resource's compiled Schema(), its forms key[x] key[ key[] key], the fields of the other resources, unknown keys, [x], empty key} x 16 values {string, address, partial address, date, 5, 2^64+1, -1, true, [\"a\"], [], 1.5, null, [1], [null], {}, {\"a\":1}}, plus each leaf on an own key wrapped once in $not/$and/$or; quick tier: full product on the own keys of the base variant of each route, 2 values on foreign/unknown keys, 3 values on the HEAD/point-in-time variants; served in batches of 64 by one process, each request judged on its own (a key that names no field of the resource is definitely invalid). STREAMED BULKS (c38stream.go): a valid multi-element seed for each of application/vnd.formance.ledger.api.v2.bulk+script-stream and +json-stream, atomic and not; text stream: 21 header variants at every element position with and without a script, empty/blank script, missing //end, stray //end, text instead of an element, NUL, 64 KiB lines, CRLF/CR, BOM, blank lines, 120 elements; JSON stream: the JSON-pointer menu on the documents, framing damage (concatenated, comma-separated, array-wrapped, CRLF, BOM, NUL), truncated/split/duplicated documents, non-object documents, unknown/missing actions and payloads; spellings of the content type; all in doubt (a streamed bulk reports a stream it cannot decode inside a 200). CURSORS ON EMPTY PAGES: the decoded next cursor of every paginated seed with pageSize in {0,1,2^31,2^63-1,2^63,2^64-1,2^64,-1} x a position or filter that leaves nothing to return (offset beyond the end, pagination id/bottom beyond the data, reverse, filters.qb selecting nothing) x order as is/flipped, without the pageSize parameter (which would override the cursor's). LEDGER CONFIGURATION (c38features.go, run first): besides l1/ls/limp (default features) the seeded database holds four ledgers created with other feature sets — MOVES_HISTORY=OFF; MOVES_HISTORY_POST_COMMIT_EFFECTIVE_VOLUMES=DISABLED; HASH_LOGS, ACCOUNT_METADATA_HISTORY and TRANSACTION_METADATA_HISTORY off together; the minimal set (all five off) — each with the core of the history of l1 (its accounts, transactions 1-4 and metadata); every seed request that addresses l1 (reads and writes, v1 and v2) is sent to each of them as it is, and every GET/HEAD one also with expand in {absent, volumes, effectiveVolumes, volumes+effectiveVolumes} (what such a ledger cannot serve — an expansion that needs the moves or the effective volumes, v1 balances/accounts that always expand volumes — must be refused with a 4xx or served, never a 5xx); all in doubt, same oracle and follow-ups as any case; the signature of a 5xx there carries the route (the error mapping is per handler). IMPORT WITH THE HASH CHAIN REPAIRED (c38import.go): every body mutation of the import seed that leaves the documents decodable is ALSO sent with its hashes recomputed in stream order (Log.ComputeHash), so that it gets past the hash comparison; cross-document streams, well hashed: a later document takes a value of an earlier one of its type (every leaf: reference, transaction id, log id, ...), the same new reference / idempotency key / transaction id / log id in two documents, documents swapped, twice, missing, the whole stream twice. Oracle: no 5xx/panic/process crash, well-formed body for the status, 4xx leaves the dump unchanged (except non-atomic bulk, whose elements are independent by contract), definitely-invalid input (explicit table) is 4xx; in-doubt mutations may be 2xx or 4xx. Signatures are at root-cause level: panic/process-crash = call site; 5xx = input class + logged error class; state-changed-on-4xx = route; accepted/malformed = route + pointer class + replacement class (+ the follow-up kind when the request judged is a follow-up); verdict-changed-on-repeat = route + pointer class + replacement class + the two status classes",
 	}
 	return cov, assumptions
 }
 
-// the whole quick space (15.2k cases, 70k requests judged: every case is a short history on
+// the whole quick space (16.0k cases, 71k requests judged: every case is a short history on
 // one process, the filter grid travels in batches) takes ~170 s on a 16-core machine at load
-// 80-100 (the 11.7k cases it had before the grid, the streams and the empty pages: 120 s)
+// 80-100 (the 11.7k cases it had before the grid, the streams and the empty pages: 120 s).
+// The four feature ledgers of the configuration dimension make the database, hence the two
+// dumps every request pays for, half as large again: 110-120 s at load 50-60, where the
+// space without them took 97 s
 const c38Quick, c38Thorough = 300 * time.Second, 15 * time.Minute
 
 func routeCount(seeds []Seed) int {
